@@ -138,7 +138,7 @@ fn nontrivial(layout: &Layout, obs: &Observed) -> bool {
 
 pub fn cases(opts: &Opts) -> Vec<Case> {
     let mut out: Vec<Case> = ops::corpus().into_iter().map(|c| Case { name: c.name, files: c.files }).collect();
-    let ngen = opts.n(200, 4000);
+    let ngen = opts.n(1200, 8000);
     for i in 0..ngen {
         let mut p = Prng::derive(opts.seed, i as u64, "c13-project");
         let cfg = GenCfg::swarm(&mut p);
